@@ -65,22 +65,39 @@ def forbidden_tokens():
     return hits
 
 
+def modules_of(prop):
+    """the property file and, when present, its continuation `Props/<prop>b.lean` (theorems that need lemma files which themselves
+    build on the property file, so cannot be imported by it)"""
+    mods = [prop]
+    if os.path.exists(os.path.join(LEANDIR, "Cinco", "Props", prop + "b.lean")):
+        mods.append(prop + "b")
+    return mods
+
+
+def targets_of(prop):
+    return ["Cinco.Props." + m for m in modules_of(prop)]
+
+
 def theorems_of(prop):
-    p = os.path.join(LEANDIR, "Cinco", "Props", prop + ".lean")
-    src = strip_comments(open(p, encoding="utf-8").read())
-    ns = re.search(r"^namespace\s+(\S+)", src, re.M).group(1)
-    names = re.findall(r"^\s*(?:protected\s+|private\s+)?theorem\s+([^\s:({\[]+)", src, re.M)
-    return [ns + "." + n for n in names]
+    out = []
+    for mod in modules_of(prop):
+        p = os.path.join(LEANDIR, "Cinco", "Props", mod + ".lean")
+        src = strip_comments(open(p, encoding="utf-8").read())
+        ns = re.search(r"^namespace\s+(\S+)", src, re.M).group(1)
+        names = re.findall(r"^\s*(?:protected\s+|private\s+)?theorem\s+([^\s:({\[]+)", src, re.M)
+        out += [ns + "." + n for n in names]
+    return out
 
 
 def audit(prop, timeout=600):
-    """#print axioms for every theorem of Props/<prop>.lean -> {name: [axioms]} (None = did not check)"""
+    """#print axioms for every theorem of Props/<prop>.lean (and its continuation) -> {name: [axioms]} (None = did not check)"""
     names = theorems_of(prop)
     adir = os.path.join(LEANDIR, ".lake", "audit")
     os.makedirs(adir, exist_ok=True)
     path = os.path.join(adir, "Audit_%s_%d.lean" % (prop, os.getpid()))
     with open(path, "w") as f:
-        f.write("import Cinco.Props.%s\n" % prop)
+        for mod in modules_of(prop):
+            f.write("import Cinco.Props.%s\n" % mod)
         for n in names:
             f.write("#print axioms %s\n" % n)
     try:
@@ -99,7 +116,7 @@ def audit(prop, timeout=600):
 
 
 def leanchecker(prop, timeout=3000):
-    rc, out = run(["lake", "env", "leanchecker", "Cinco.Props." + prop], timeout)
+    rc, out = run(["lake", "env", "leanchecker"] + targets_of(prop), timeout)
     return rc == 0, out
 
 
